@@ -157,7 +157,8 @@ radixsort_int(element_type *in, element_type *work, size_t n)
 		/* Compute the correct output starting index for each possible
 		   byte value.
 		*/
-		if (bytenum < sizeof(element_type) - 1) {
+		if (bytenum < sizeof(element_type) - 1
+		    || (element_type)-1 > 0 /* unsigned: no sign byte */) {
 			for (i = 0; i < 256; ++i) {
 				const size_t icount = pcount[i];
 				index[i] = total;
